@@ -79,6 +79,40 @@ impl SWCurveConfig for ToySw {
     const COEFF_B: F13 = MontFp!("2");
     const GENERATOR: sw::Affine<Self> = sw::Affine::new_unchecked(MontFp!("1"), MontFp!("4"));
 }
+// y^2 = x^3 + x over F_13 (a != 0): 20 points = Z2 x Z10, r = 5, cofactor 4; full 2-torsion (0,0), (5,0), (8,0)
+#[derive(Clone, Default, PartialEq, Eq)]
+pub struct ToySwB;
+impl CurveConfig for ToySwB {
+    type BaseField = F13;
+    type ScalarField = F5;
+    const COFACTOR: &'static [u64] = &[4];
+    const COFACTOR_INV: F5 = MontFp!("4");
+}
+impl SWCurveConfig for ToySwB {
+    const COEFF_A: F13 = MontFp!("1");
+    const COEFF_B: F13 = MontFp!("0");
+    const GENERATOR: sw::Affine<Self> = sw::Affine::new_unchecked(MontFp!("4"), MontFp!("4"));
+}
+// y^2 = x^3 + 1 over F_13 (a = 0, the doubling formula of the shipped curves): 12 points = Z2 x Z6,
+// r = 3, cofactor 4; full 2-torsion (4,0), (10,0), (12,0); generator (0, 1)
+#[derive(MontConfig)]
+#[modulus = "3"]
+#[generator = "2"]
+pub struct F3Config;
+pub type F3 = Fp64<MontBackend<F3Config, 1>>;
+#[derive(Clone, Default, PartialEq, Eq)]
+pub struct ToySwC;
+impl CurveConfig for ToySwC {
+    type BaseField = F13;
+    type ScalarField = F3;
+    const COFACTOR: &'static [u64] = &[4];
+    const COFACTOR_INV: F3 = MontFp!("1");
+}
+impl SWCurveConfig for ToySwC {
+    const COEFF_A: F13 = MontFp!("0");
+    const COEFF_B: F13 = MontFp!("1");
+    const GENERATOR: sw::Affine<Self> = sw::Affine::new_unchecked(MontFp!("0"), MontFp!("1"));
+}
 // -x^2 + y^2 = 1 + 6 x^2 y^2 over F_13 (complete), 20 points, r = 5, cofactor 4
 #[derive(Clone, Default, PartialEq, Eq)]
 pub struct ToyTe;
@@ -367,8 +401,17 @@ fn run_sw<P: SWCurveConfig>(op: &str, a: &[Arg]) -> Vec<Arg> {
         "sw_rel" => {
             let g = P::GENERATOR;
             let s = &a[5];
-            let pa = g.mul_bigint(scalar_limbs(&s[0])).into_affine();
-            let pb = g.mul_bigint(scalar_limbs(&s[1])).into_affine();
+            // base points by raw affine coordinates: anywhere on the curve (small order, outside the
+            // prime-order subgroup, zero coordinates); flag 0 = identity
+            let base = |i: usize| -> sw::Affine<P> {
+                if a.len() > 10 + i && a[10].len() > i - 1 && to_u64(&a[10][i - 1]) != 0 {
+                    sw::Affine::<P>::new_unchecked(el::<P::BaseField>(&a[10 + i], 0), el::<P::BaseField>(&a[10 + i], 1))
+                } else {
+                    sw::Affine::<P>::identity()
+                }
+            };
+            let pa = (base(1).into_group() + g.mul_bigint(scalar_limbs(&s[0]))).into_affine();
+            let pb = (base(2).into_group() + g.mul_bigint(scalar_limbs(&s[1]))).into_affine();
             let w = to_usize(&s[4]);
             let rx = el::<P::BaseField>(&a[6], 0);
             let ry = el::<P::BaseField>(&a[6], 1);
@@ -386,14 +429,18 @@ fn run_sw<P: SWCurveConfig>(op: &str, a: &[Arg]) -> Vec<Arg> {
             let r = mk(to_u64(&a[9][1]), el::<P::BaseField>(&a[8], 0), to_u64(&a[9][3]));
             let la = l.into_affine();
             let ra = r.into_affine();
+            let z = sw::Projective::<P>::zero();
+            let za = sw::Affine::<P>::identity();
+            let nb = sw::Projective::<P>::normalize_batch(&[l, r]);
             assert_eq!(l != r, !(l == r), "harness: != is not the negation of ==");
             ok(vec![
-                bools(&[l == r]),
+                bools(&[l == r, r == l]),
                 bools(&[h64(&l) == h64(&r)]),
-                bools(&[l.is_zero(), r.is_zero()]),
-                bools(&[la == ra, h64(&la) == h64(&ra)]),
+                bools(&[l.is_zero(), r.is_zero(), l == z, r == z, z == l, z == r]),
+                bools(&[la == ra, h64(&la) == h64(&ra), ra == la]),
                 bools(&[l == ra, la == r, ra == l, r == la]),
-                bools(&[la.is_zero(), ra.is_zero()]),
+                bools(&[la.is_zero(), ra.is_zero(), la == za, ra == za]),
+                bools(&[nb[0] == la, nb[1] == ra, nb[0] == nb[1], nb[0].is_zero(), nb[1].is_zero()]),
             ])
         },
         "sw_params" => {
@@ -453,8 +500,17 @@ fn run_te<P: TECurveConfig>(op: &str, a: &[Arg]) -> Vec<Arg> {
         "te_rel" => {
             let g = P::GENERATOR;
             let s = &a[5];
-            let pa = g.mul_bigint(scalar_limbs(&s[0])).into_affine();
-            let pb = g.mul_bigint(scalar_limbs(&s[1])).into_affine();
+            // base points by raw affine coordinates: anywhere on the curve (order 2, 4, 8, torsion +
+            // subgroup, zero coordinates); flag 0 = the neutral element (0, 1)
+            let base = |i: usize| -> te::Affine<P> {
+                if a.len() > 10 + i && a[10].len() > i - 1 && to_u64(&a[10][i - 1]) != 0 {
+                    te::Affine::<P>::new_unchecked(el::<P::BaseField>(&a[10 + i], 0), el::<P::BaseField>(&a[10 + i], 1))
+                } else {
+                    te::Affine::<P>::zero()
+                }
+            };
+            let pa = (base(1).into_group() + g.mul_bigint(scalar_limbs(&s[0]))).into_affine();
+            let pb = (base(2).into_group() + g.mul_bigint(scalar_limbs(&s[1]))).into_affine();
             let w = to_usize(&s[4]);
             let rz = el::<P::BaseField>(&a[6], 0);
             let mk = |e: u64, lam: P::BaseField, nrm: u64| {
@@ -470,14 +526,18 @@ fn run_te<P: TECurveConfig>(op: &str, a: &[Arg]) -> Vec<Arg> {
             let r = mk(to_u64(&a[9][1]), el::<P::BaseField>(&a[8], 0), to_u64(&a[9][3]));
             let la = l.into_affine();
             let ra = r.into_affine();
+            let z = te::Projective::<P>::zero();
+            let za = te::Affine::<P>::zero();
+            let nb = te::Projective::<P>::normalize_batch(&[l, r]);
             assert_eq!(l != r, !(l == r), "harness: != is not the negation of ==");
             ok(vec![
-                bools(&[l == r]),
+                bools(&[l == r, r == l]),
                 bools(&[h64(&l) == h64(&r)]),
-                bools(&[l.is_zero(), r.is_zero()]),
-                bools(&[la == ra, h64(&la) == h64(&ra)]),
+                bools(&[l.is_zero(), r.is_zero(), l == z, r == z, z == l, z == r]),
+                bools(&[la == ra, h64(&la) == h64(&ra), ra == la]),
                 bools(&[l == ra, la == r, ra == l, r == la]),
-                bools(&[la.is_zero(), ra.is_zero()]),
+                bools(&[la.is_zero(), ra.is_zero(), la == za, ra == za]),
+                bools(&[nb[0] == la, nb[1] == ra, nb[0] == nb[1], nb[0].is_zero(), nb[1].is_zero()]),
             ])
         },
         "te_params" => {
@@ -674,7 +734,12 @@ fn run(op: &str, a: &[Arg]) -> Vec<Arg> {
                 (0, 1) => run_sw::<bls12_381::g1::Config>(op, a),
                 (0, 2) => run_sw::<bls12_381::g2::Config>(op, a),
                 (2, 1) => run_sw::<secp256k1::Config>(op, a),
-                (5, 1) => run_sw::<ToySw>(op, a),
+                (5, 1) => match a[0].get(3).map(to_u64).unwrap_or(0) {
+                    0 => run_sw::<ToySw>(op, a),
+                    1 => run_sw::<ToySwB>(op, a),
+                    2 => run_sw::<ToySwC>(op, a),
+                    _ => unsupported(),
+                },
                 _ => unsupported(),
             };
             if op == "sw_params" {
